@@ -622,8 +622,8 @@ class Node:
     def reset_children(self):
         """Reset children to empty list.
         """
-        for child in self.children_iter():
-            child.parent = None
+        for child in list(self.children_iter()):
+            self.remove_node(child)
         self.children = list()
         self.children_by_name = dict()
 
